@@ -620,3 +620,22 @@ func CheckedOnPaths(c *ssa.Call, x ssa.Instruction) bool {
 	}
 	return Reaches(c, x)
 }
+
+// Equality reports what a guard on an ==/!= comparison establishes on its
+// taken edge: eq=true means "X == Y holds", eq=false "X != Y holds". It is
+// polarity-agnostic: `if a != b { return }` and `if a == b { … }` establish
+// the same fact for the code that follows / is nested.
+func (g Guard) Equality() (eq bool, ok bool) {
+	cd := CondOf(g.If.Cond)
+	if cd.Op != token.EQL && cd.Op != token.NEQ {
+		return false, false
+	}
+	truth := g.Branch
+	if cd.Neg {
+		truth = !truth
+	}
+	if cd.Op == token.EQL {
+		return truth, true
+	}
+	return !truth, true
+}
